@@ -276,6 +276,7 @@ func runMustCall(c *Ctx, prop string) {
 			core = append(core, e)
 		}
 	}
+	c.R.Explain += " Also decided for the functions this property's table names (tables/mustcall.json): (" + prop + ".mustcall) every normal exit of F is preceded by the call K that does F's work, directly or through a helper (no shortcut / fast path around it); (" + prop + ".errdrop) no error of a module call, dynamic call or strconv / encoding/json / os call is dropped there (tested, returned, wrapped or classified on every path; reviewed exceptions in tables/errdrop_allow.json)."
 	ruleMustCallEntries(c, u, prop, core)
 	if prop != "C05" && prop != "C17" { // these two have their own error-propagation rules
 		ruleErrDrop(c, u, prop)
